@@ -185,7 +185,10 @@ procrustesRotationAndTranslation (
             for (int j = 0; j < 3; ++j)
                 traceBATQ += Qt[j][i] * C[i][j];
 
-        s = traceBATQ.get () / traceATA.get ();
+        // With no spread in the 'from' points (all of them coincide, or
+        // only one has a non-zero weight) there is nothing to scale:
+        // keep s = 1 instead of dividing zero by zero.
+        if (traceATA.get () > 0) s = traceBATQ.get () / traceATA.get ();
     }
 
     // Q is the rotation part of what we want to return.
